@@ -269,7 +269,7 @@ func c10(r *Run) {
 	}
 
 	// ---- R7 the slot is given up before the descriptor number can be reused -----------------------
-	if w.Cfg.Name == "linux" || w.Cfg.Name == "darwin" {
+	if (w.Cfg.Name == "linux" || w.Cfg.Name == "darwin") && ro.finalizer != nil {
 		fin := ro.finalizer
 		netClose := w.MustFn("(*netFD).Close")
 		for _, cs := range findIns(fin, func(i ssa.Instruction) bool { return isCall(i, netClose) }) {
